@@ -54,7 +54,8 @@ fn lattice() -> Vec<BigUint> {
   // the same boundaries in the MONTGOMERY domain: x with x*R mod p within 3 of 0, 2^64, 2^128, p
   // (intermediate results of the limb code that are tiny / limb-aligned / just below the modulus)
   let rinv = rm::invm(&r).unwrap();
-  for c in [BigUint::zero(), &one << 64, &one << 128, p.clone()] {
+  let half = |x: &BigUint| x >> 1;
+  for c in [BigUint::zero(), &one << 64, &one << 128, p.clone(), &one << 127, (&one << 127) + (&one << 63), (&one << 127) + (&one << 64), half(&p), half(&p) + (&one << 63), (&one << 128) + (&one << 64), (&one << 128) + (&one << 65) + &one] {
     for d in 0u32..=3 {
       for m in [&c + BigUint::from(d), if c >= BigUint::from(d) { &c - BigUint::from(d) } else { c.clone() }] {
         if m < p {
@@ -134,6 +135,16 @@ fn run_binops(cx: &mut CaseCx, case: &Value) {
     let mut t = ra;
     t *= rb;
     cmp(cx, "a*=b", "binop/mul_assign", &t, &rm::mulm(a, b), d);
+    // one more operation on top of each result (a result that is correct in value but not fully reduced
+    // internally shows only in the NEXT subtraction / negation)
+    let (sum, dif, prod) = (ra + rb, ra - rb, ra * rb);
+    let (msum, mdif, mprod) = (rm::addm(a, b), rm::subm(a, b), rm::mulm(a, b));
+    cmp(cx, "-(a+b)", "compose/neg-add", &(-sum), &rm::negm(&msum), d);
+    cmp(cx, "-(a-b)", "compose/neg-sub", &(-dif), &rm::negm(&mdif), d);
+    cmp(cx, "-(a*b)", "compose/neg-mul", &(-prod), &rm::negm(&mprod), d);
+    cmp(cx, "0-(a*b)", "compose/zero-minus-mul", &(Fp::ZERO - prod), &rm::negm(&mprod), d);
+    cmp(cx, "(a+b)-(a*b)", "compose/add-minus-mul", &(sum - prod), &rm::subm(&msum, &mprod), d);
+    cmp(cx, "(a*b).double()", "compose/double-mul", &prod.double(), &rm::addm(&mprod, &mprod), d);
     cx.eval();
     if (ra == rb) != (a == b) {
       cx.viol("C07/binop/eq", "equality of elements disagrees with equality of integers", d());
@@ -153,6 +164,19 @@ fn unary_checks(cx: &mut CaseCx, a: &BigUint, ra: &Fp) {
   cmp(cx, "double(a)", "unary/double", &ra.double(), &rm::addm(a, a), d);
   cmp(cx, "square(a)", "unary/square", &ra.square(), &rm::mulm(a, a), d);
   cmp(cx, "cube(a)", "unary/cube", &ra.cube(), &rm::mulm(&rm::mulm(a, a), a), d);
+  // every unary result followed by one more unary operation
+  let firsts: Vec<(&str, Fp, BigUint)> = vec![("neg", -*ra, rm::negm(a)), ("double", ra.double(), rm::addm(a, a)), ("square", ra.square(), rm::mulm(a, a)), ("cube", ra.cube(), rm::mulm(&rm::mulm(a, a), a))];
+  for (n1, r1, m1) in &firsts {
+    cmp(cx, &format!("-({}(a))", n1), "compose/neg-unary", &(-*r1), &rm::negm(m1), d);
+    cmp(cx, &format!("{}(a).double()", n1), "compose/double-unary", &r1.double(), &rm::addm(m1, m1), d);
+    cmp(cx, &format!("{}(a).square()", n1), "compose/square-unary", &r1.square(), &rm::mulm(m1, m1), d);
+    cmp(cx, &format!("a-{}(a)", n1), "compose/sub-unary", &(*ra - *r1), &rm::subm(a, m1), d);
+    cmp(cx, &format!("1-{}(a)", n1), "compose/one-minus-unary", &(Fp::ONE - *r1), &rm::subm(&BigUint::one(), m1), d);
+    cx.eval();
+    if r1.is_zero_vartime() != m1.is_zero() {
+      cx.viol("C07/compose/is_zero", format!("is_zero({}({})) wrong", n1, a), d());
+    }
+  }
   // inversion: None exactly for zero
   cx.eval();
   let inv: Option<Fp> = Option::from(ra.invert());
@@ -495,7 +519,7 @@ pub fn spec() -> PropSpec {
       },
       Check {
         name: "lattice-binops",
-        rule: "all ordered pairs of the boundary lattice (values within 6 of 0, 2^32, 2^63..2^65, 2^96, 2^127, 2^128, (p-1)/2, p, Montgomery constants, limb patterns, and the values whose MONTGOMERY form is within 3 of 0, 2^64, 2^128, p) x {+,-,*, assign forms, ==}; distinct = ordered pairs",
+        rule: "all ordered pairs of the boundary lattice (values within 6 of 0, 2^32, 2^63..2^65, 2^96, 2^127, 2^128, (p-1)/2, p, Montgomery constants, limb patterns, and the values whose MONTGOMERY form is within 3 of 0, 2^64, 2^128, p, 2^127 (+2^63, +2^64), p/2 (+2^63), 2^128+2^64, 2^128+2^65) x {+,-,*, assign forms, ==}; distinct = ordered pairs",
         gen: |_| (0..lattice().len()).map(|i| json!({"row": i})).collect(),
         run: run_binops,
         min_counts: &[("evaluations", 50_000)],
